@@ -25,7 +25,7 @@ def main():
         hits = common.forbidden_scan()
         chk.oblige("no Admitted/admit/Axiom/Parameter/unsafe flags in coq/", not hits, "; ".join(hits[:5]))
         # 1. static theorems: built, and the property file re-checked now
-        common.ensure_static_built()
+        common.ensure_static_built(a.cid, getattr(mod, "STATIC", ()))
         ok, thms, log = common.check_property_file(a.cid)
         if not ok:
             chk.oblige("Properties/%s.v compiles" % a.cid, False, log)
